@@ -178,12 +178,14 @@ def make_resolver(coord, bundle=None):
                     raise UserError(tf[2], user_message=tf[0], extensions=dict(tf[1]))
                 raise UserError(tf[0], extensions=dict(tf[1]))
             if kind == "raise_odd":
-                from simv.model.exec import EmptyMessageError, PathCarryingError, UnprintableError
-                which = zlib.crc32(repr(path).encode()) % 3
+                from simv.model.exec import EmptyMessageError, PathCarryingError, PayloadError, UnprintableError
+                which = zlib.crc32(repr(path).encode()) % 4
                 if which == 0:
                     raise UnprintableError()
                 if which == 1:
                     raise EmptyMessageError()
+                if which == 3:
+                    raise PayloadError("odd " + tok)
                 raise PathCarryingError("odd " + tok)
             if kind == "raise_base":
                 # a failure that is not an `Exception`: the resolver awaits something that somebody else
